@@ -202,25 +202,39 @@ ODone ==
     /\ hist' = Rec([op |-> ol.op, arg |-> ol.c, keep |-> ol.keep, res |-> ol.out, nt |-> notified])
     /\ UNCHANGED <<head, next, ol, pendingWake, armed, wakesSinceArm, notifiedAtArm, UO>>
 
+(* has_scheduled: one load of the head *)
 OHas ==
     /\ opc = "idle" /\ ol.left > 0 /\ MayStart
-    /\ ol' = [ol EXCEPT !.left = @ - 1]
+    /\ ol' = [ol EXCEPT !.left = @ - 1, !.op = "has"]
+    /\ opc' = "hasload"
+    /\ UNCHANGED <<head, next, pendingWake, armed, wakesSinceArm, notifiedAtArm, hist, UO>>
+
+OHasLoad ==
+    /\ opc = "hasload"
+    /\ opc' = "idle"
     /\ hist' = Rec([op |-> "has", arg |-> 0, res |-> <<IF head.idx # EMPTY THEN 1 ELSE 0>>, nt |-> notified])
-    /\ UNCHANGED <<head, next, opc, pendingWake, armed, wakesSinceArm, notifiedAtArm, UO>>
+    /\ UNCHANGED <<head, next, ol, pendingWake, armed, wakesSinceArm, notifiedAtArm, UO>>
 
 (* discard_scheduled: nothing if the head word is exactly "empty, no countdown"; else take_scheduled(0) and drop *)
 ODiscard ==
     /\ opc = "idle" /\ ol.left > 0 /\ MayStart
+    /\ ol' = [ol EXCEPT !.left = @ - 1, !.op = "discard"]
+    /\ opc' = "dload"
+    /\ UNCHANGED <<head, next, pendingWake, armed, wakesSinceArm, notifiedAtArm, hist, UO>>
+
+ODiscardLoad ==
+    /\ opc = "dload"
     /\ IF head = [idx |-> EMPTY, cd |-> 0]
-       THEN /\ ol' = [ol EXCEPT !.left = @ - 1]
-            /\ hist' = Rec([op |-> "discard", arg |-> 0, res |-> <<>>, nt |-> notified])
-            /\ UNCHANGED opc
-       ELSE /\ ol' = [ol EXCEPT !.c = 0, !.keep = 0, !.h = head, !.out = <<>>, !.left = @ - 1, !.op = "discard"]
+       THEN /\ hist' = Rec([op |-> "discard", arg |-> 0, res |-> <<>>, nt |-> notified])
+            /\ opc' = "idle"
+            /\ UNCHANGED ol
+       ELSE /\ ol' = [ol EXCEPT !.c = 0, !.keep = 0, !.h = head, !.out = <<>>]      \* take_scheduled(0): load of head
             /\ opc' = "tcas"
             /\ UNCHANGED hist
     /\ UNCHANGED <<head, next, pendingWake, armed, wakesSinceArm, notifiedAtArm, UO>>
 
-Owner == OStartTake \/ OTakeCas \/ OIter \/ ODropLoad \/ ODropStore \/ ODone \/ OHas \/ ODiscard
+Owner == OStartTake \/ OTakeCas \/ OIter \/ ODropLoad \/ ODropStore \/ ODone \/ OHas \/ OHasLoad \/ ODiscard
+         \/ ODiscardLoad
 Waker(t) == WStart(t) \/ WLoopA(t) \/ WCasNext(t) \/ WCasHead(t) \/ WSwap(t) \/ WNotify(t)
 
 Next == Owner \/ \E t \in Wakers : Waker(t)
